@@ -137,12 +137,12 @@ def graphs(full):
 
 def datasets():
     """(default triples, {name: triples}) distributions for GRAPH tests."""
-    t1, t2, t3 = (A, P, B), (B, P, A), (A, Q, ONE)
+    t1, t2, t3, t4 = (A, P, B), (B, P, A), (A, Q, ONE), (A, P, G1)  # t4: a graph name as a term inside a graph (its own, and another)
     out = []
-    for d, n1, n2 in itertools.product(range(4), repeat=3):
+    for d, n1, n2 in itertools.product(range(4), range(8), range(8)):
         default = [t for i, t in enumerate((t1, t2)) if d >> i & 1]
-        g1 = [t for i, t in enumerate((t1, t3)) if n1 >> i & 1]
-        g2 = [t for i, t in enumerate((t2, t3)) if n2 >> i & 1]
+        g1 = [t for i, t in enumerate((t1, t3, t4)) if n1 >> i & 1]
+        g2 = [t for i, t in enumerate((t2, t3, t4)) if n2 >> i & 1]
         if len(default) + len(g1) + len(g2) <= 3:
             out.append(["ds", default, [[G1, g1], [G2, g2]]])
     return out
@@ -340,6 +340,21 @@ def graph_programs(thorough):
     out = []
     inner_ps = [bgp(LEAVES[0]), bgp(LEAVES[1]), ("opt", bgp(LEAVES[0]), bgp(LEAVES[2])), ("filter", FILTERS[0], bgp(LEAVES[0])),
                 ("union", bgp(LEAVES[0]), bgp(LEAVES[1]))]
+    # the graph variable itself inside the group: it joins with the graph's name afterwards and is not in scope while the group is evaluated
+    inner_g = [bgp([(X, P, GV)]), ("minus", bgp(LEAVES[0]), bgp([(X, P, GV)])), ("filter", ("!", ("bound", "g")), bgp(LEAVES[0])),
+               ("filter", ("=", GV, ("const", G1)), bgp(LEAVES[0])), ("join", bgp(LEAVES[0]), ("subsel", bgp([(X, P, GV)]), ["x"], False)),
+               ("opt", bgp(LEAVES[0]), bgp([(Y, P, GV)])), ("bind", bgp(LEAVES[0]), ("coalesce", [GV, ("const", A)]), "w"),
+               ("optf", bgp(LEAVES[0]), bgp([(X, Q, Z)]), ("!", ("bound", "g"))), ("filter", ("notexists", ("bgp", [(X, P, GV)])), bgp(LEAVES[0]))]
+    for ip in inner_g:
+        gp = ("graph", GV, ip)
+        out.append(gp)
+        out.append(("join", bgp(LEAVES[0]), gp))
+        out.append(("opt", bgp(LEAVES[0]), gp))
+    if thorough:
+        for ip in programs(1, small_leaves=True):
+            for name in (G1, GV):
+                out.append(("graph", name, ip))
+                out.append(("join", bgp(LEAVES[1]), ("graph", name, ip)))
     for ip in inner_ps:
         for name in (G1, GV):
             gp = ("graph", name, ip)
